@@ -18,6 +18,9 @@ use crate::wire::*;
 pub enum Ev {
     HReg { name: u8, ctx: u8, valid: bool },
     HUnreg { name: u8, ctx: u8 },
+    /// `<name>.unregister` appended in the NEXT context, carrying in its meta the handler id of
+    /// the instance active under that name in `ctx`: it concerns the context it is in, nothing else
+    HUnregElsewhere { name: u8, ctx: u8 },
     HBoom { name: u8, ctx: u8 },
     GSpawn { name: u8, ctx: u8 },
     GSpawnBad { name: u8, ctx: u8 },
@@ -48,6 +51,7 @@ pub fn strategy() -> BoxedStrategy<C17Case> {
     let ev = prop_oneof![
         5 => (nc(), prop_oneof![6 => Just(true), 1 => Just(false)]).prop_map(|((name, ctx), valid)| Ev::HReg { name, ctx, valid }),
         2 => nc().prop_map(|(name, ctx)| Ev::HUnreg { name, ctx }),
+        1 => nc().prop_map(|(name, ctx)| Ev::HUnregElsewhere { name, ctx }),
         1 => nc().prop_map(|(name, ctx)| Ev::HBoom { name, ctx }),
         3 => nc().prop_map(|(name, ctx)| Ev::GSpawn { name, ctx }),
         1 => nc().prop_map(|(name, ctx)| Ev::GSpawnBad { name, ctx }),
@@ -304,6 +308,7 @@ fn run_in(case: &C17Case, nu: &mut Nu) -> Result<CaseInfo, Fail> {
     let mut had_stop = false;
     let mut failed_call = false;
     let mut replaced_while_down = false;
+    let mut unreg_elsewhere = false;
     for (i, ev) in case.events.iter().enumerate() {
         match ev {
             Ev::HReg { name, ctx, valid } => {
@@ -331,6 +336,19 @@ fn run_in(case: &C17Case, nu: &mut Nu) -> Result<CaseInfo, Fail> {
                 } else {
                     had_stop = true;
                 }
+            }
+            Ev::HUnregElsewhere { name, ctx } => {
+                let n = HN[*name as usize];
+                let other = (*ctx + 1) % 3;
+                let meta = r.m.handlers.get(&(*ctx, *name)).map(|(id, _)| MetaVal::O(vec![("handler_id".into(), MetaVal::S(id.clone()))]));
+                r.nu.append(&format!("{n}.unregister"), r.ctxs[other as usize], None, meta)?;
+                if let Some((pid, _)) = r.m.handlers.remove(&(other, *name)) {
+                    r.wait(&format!("handler {pid} did not announce .unregistered after {n}.unregister in its context"), |fr| {
+                        fr.iter().any(|w| w.topic == format!("{n}.unregistered") && meta_of(w, "handler_id").as_deref() == Some(&pid))
+                    })?;
+                    had_stop = true;
+                }
+                unreg_elsewhere = true;
             }
             Ev::HUnreg { name, ctx } | Ev::HBoom { name, ctx } => {
                 let n = HN[*name as usize];
@@ -459,6 +477,18 @@ fn run_in(case: &C17Case, nu: &mut Nu) -> Result<CaseInfo, Fail> {
                 r.probe_all(&format!("after restart #{restarts}"), start_marker)?;
                 // nothing historical was executed again
                 let after = r.nu.frames()?;
+                // and no stop is announced a second time (a registration that failed or was stopped
+                // stays that way: it is not attempted again)
+                let mut stops: BTreeMap<String, usize> = BTreeMap::new();
+                for w in after.iter().filter(|w| w.topic.ends_with(".unregistered")) {
+                    if let Some(h) = meta_of(w, "handler_id") {
+                        *stops.entry(h).or_insert(0) += 1;
+                    }
+                }
+                r.checks += 1;
+                if let Some((h, k)) = stops.iter().find(|(_, k)| **k > 1) {
+                    return Err(rs(format!("after restart #{restarts}: the stop of handler registration {h} is announced {k} times (.unregistered): it was set up again at start-up")));
+                }
                 for (t, n) in counts {
                     let now = count(&after, &t);
                     r.checks += 1;
@@ -480,6 +510,7 @@ fn run_in(case: &C17Case, nu: &mut Nu) -> Result<CaseInfo, Fail> {
         (same_name_two_ctx, "same-name-in-two-contexts"),
         (failed_call, "command-call-failed-at-run-time"),
         (replaced_while_down, "replacing-register-found-only-in-history"),
+        (unreg_elsewhere, "unregister-with-foreign-handler-id-in-another-context"),
         (stopped_and_live, "stopped-and-live-at-restart"),
         (restarts >= 2, "two-or-more-restarts"),
     ] {
